@@ -146,7 +146,7 @@ func c02Init(t *testing.T) {
 		for si, sc := range C02Scenarios() {
 			p := clonePlan(sc)
 			p.Checks["report_seams"] = true
-			res := Run(t, p, core.NewReplay(nil), extraFor(p), false)
+			res := RunPlan(t, p, core.NewReplay(nil), false)
 			if res.HarnessErr != "" || len(res.Violations) > 0 || res.Stats["quiesced"] == 0 {
 				c02Err = fmt.Sprintf("scenario %d (%s): fault-free run is not clean: harness=%q violations=%v quiesced=%d", si, sc.Note, res.HarnessErr, res.Violations, res.Stats["quiesced"])
 				return
